@@ -22,7 +22,7 @@
 (*                       allocation strategy (used by the bounded models,  *)
 (*                       which check it against XxxSpec on every step).    *)
 (***************************************************************************)
-EXTENDS Query, Pool, TLC
+EXTENDS Query, Pool, StreamName, TLC
 
 CONSTANTS MaxRows          \* 65536 in the library's reader; scaled in bounded models
 
@@ -64,8 +64,9 @@ AllRowsOf(ts) ==
 MemWF == PoolWF(pool, AllRowsOf(tstream))          \* exact accounting in memory
 
 \* The abstract, user-visible state (values, not references).
+SIG == <<-1>>      \* key of the digital-signature stream inside ustreams: never listed as a stream
 AbsOf(sc, ts, p, c, sm, us, pt) ==
-  [ptype |-> pt, cp |-> c, summary |-> sm, streams |-> us,
+  [ptype |-> pt, cp |-> c, summary |-> sm, streams |-> [n \in DOMAIN us \ {SIG} |-> us[n]], sig |-> SIG \in DOMAIN us,
    tables |-> Strict([t \in DOMAIN sc |-> [cols |-> sc[t], rows |-> RowsIn(p, ts, t)]])]
 Abs == AbsOf(schemas, tstream, pool, cp, summary, ustreams, ptype)
 
@@ -231,20 +232,39 @@ SetSummary(f, v) ==
   /\ UNCHANGED <<schemas, tstream, pool, cp, ustreams, sess, ptype>> /\ DiskSame /\ ro' = FALSE
   /\ Log("SetSummary", [field |-> f, value |-> v], "Ok")
 
-WriteStream(n, c) ==      \* names here are ones the library accepts; C11 covers the rest
+WriteStream(n, c) ==      \* refused names change nothing (C04, C11)
   /\ Open
-  /\ ustreams' = [x \in DOMAIN ustreams \cup {n} |-> IF x = n THEN c ELSE ustreams[x]]
+  /\ IF StreamNameOK(n)
+     THEN /\ ustreams' = [x \in DOMAIN ustreams \cup {n} |-> IF x = n THEN c ELSE ustreams[x]]
+          /\ Log("WriteStream", [name |-> n, data |-> c], "Ok")
+     ELSE /\ UNCHANGED ustreams /\ Log("WriteStream", [name |-> n, data |-> c], "Err")
   /\ UNCHANGED <<schemas, tstream, pool, cp, summary, dirty, sess, ptype>> /\ DiskSame /\ ro' = FALSE
-  /\ Log("WriteStream", [name |-> n, data |-> c], "Ok")
 
 RemoveStream(n) ==
   /\ Open
-  /\ IF n \in DOMAIN ustreams
+  /\ IF StreamNameOK(n) /\ n \in DOMAIN ustreams
      THEN /\ ustreams' = [x \in DOMAIN ustreams \ {n} |-> ustreams[x]]
-          /\ UNCHANGED <<schemas, tstream, pool, cp, summary, dirty, sess, ptype>> /\ DiskSame /\ ro' = FALSE
           /\ Log("RemoveStream", [name |-> n], "Ok")
-     ELSE /\ UNCHANGED <<schemas, tstream, pool, cp, summary, dirty, ustreams, sess, ptype>> /\ DiskSame /\ ro' = FALSE
-          /\ Log("RemoveStream", [name |-> n], "Err")
+     ELSE /\ UNCHANGED ustreams /\ Log("RemoveStream", [name |-> n], "Err")
+  /\ UNCHANGED <<schemas, tstream, pool, cp, summary, dirty, sess, ptype>> /\ DiskSame /\ ro' = FALSE
+
+ReadStream(n) ==          \* Ok exactly for live, acceptable names; never for the special streams
+  /\ Open
+  /\ Log("ReadStream", [name |-> n], IF StreamNameOK(n) /\ n \in DOMAIN ustreams THEN "Ok" ELSE "Err")
+  /\ UNCHANGED <<schemas, tstream, pool, cp, summary, dirty, ustreams, sess, ptype, ro>> /\ DiskSame
+
+RemoveSignature ==        \* removes only the signature
+  /\ Open
+  /\ ustreams' = [x \in DOMAIN ustreams \ {SIG} |-> ustreams[x]]
+  /\ UNCHANGED <<schemas, tstream, pool, cp, summary, dirty, sess, ptype>> /\ DiskSame /\ ro' = FALSE
+  /\ Log("RemoveSignature", [x |-> 0], "Ok")
+
+\* a signing tool adds the signature stream to the closed file (outside the library)
+AddSignature ==
+  /\ sess = "closed" /\ SIG \notin DOMAIN ustreams
+  /\ ustreams' = [x \in DOMAIN ustreams \cup {SIG} |-> IF x = SIG THEN "sig" ELSE ustreams[x]]
+  /\ UNCHANGED <<schemas, tstream, pool, cp, summary, dirty, sess, ptype, ro>> /\ DiskSame
+  /\ Log("AddSignature", [x |-> 0], "Ok")
 
 \* The finisher: writes the summary stream and the pool streams if modified.
 Finish ==
@@ -401,17 +421,30 @@ SetSummarySpec(s, a, res, s1) ==
   /\ s1.dirty.fin /\ s1.dirty.sum /\ (s.dirty.pool => s1.dirty.pool)
   /\ Same(s, s1, {"schemas", "tstream", "pool", "cp", "ustreams", "sess", "ptype"} \cup Medium)
 
+StreamFrame == {"schemas", "tstream", "pool", "cp", "summary", "dirty", "sess", "ptype"} \cup Medium
 WriteStreamSpec(s, a, res, s1) ==
-  /\ res = "Ok"
-  /\ s1.ustreams = [x \in DOMAIN s.ustreams \cup {a.name} |-> IF x = a.name THEN a.data ELSE s.ustreams[x]]
-  /\ Same(s, s1, {"schemas", "tstream", "pool", "cp", "summary", "dirty", "sess", "ptype"} \cup Medium)
+  /\ Same(s, s1, StreamFrame)
+  /\ \/ /\ res = "Ok" /\ StreamNameOK(a.name)
+        /\ s1.ustreams = [x \in DOMAIN s.ustreams \cup {a.name} |-> IF x = a.name THEN a.data ELSE s.ustreams[x]]
+     \/ res = "Err" /\ ~StreamNameOK(a.name) /\ s1.ustreams = s.ustreams
 
 RemoveStreamSpec(s, a, res, s1) ==
-  \/ /\ res = "Ok" /\ a.name \in DOMAIN s.ustreams
-     /\ s1.ustreams = [x \in DOMAIN s.ustreams \ {a.name} |-> s.ustreams[x]]
-     /\ Same(s, s1, {"schemas", "tstream", "pool", "cp", "summary", "dirty", "sess", "ptype"} \cup Medium)
-  \/ /\ res = "Err" /\ a.name \notin DOMAIN s.ustreams
-     /\ Same(s, s1, AllButDirty \cup {"dirty"})
+  /\ Same(s, s1, StreamFrame)
+  /\ \/ /\ res = "Ok" /\ StreamNameOK(a.name) /\ a.name \in DOMAIN s.ustreams
+        /\ s1.ustreams = [x \in DOMAIN s.ustreams \ {a.name} |-> s.ustreams[x]]
+     \/ res = "Err" /\ ~(StreamNameOK(a.name) /\ a.name \in DOMAIN s.ustreams) /\ s1.ustreams = s.ustreams
+
+ReadStreamSpec(s, a, res, s1) ==
+  /\ Same(s, s1, StreamFrame \cup {"ustreams"})
+  /\ res = (IF StreamNameOK(a.name) /\ a.name \in DOMAIN s.ustreams THEN "Ok" ELSE "Err")
+
+RemoveSignatureSpec(s, a, res, s1) ==
+  /\ res = "Ok" /\ Same(s, s1, StreamFrame)
+  /\ s1.ustreams = [x \in DOMAIN s.ustreams \ {SIG} |-> s.ustreams[x]]
+
+AddSignatureSpec(s, a, res, s1) ==
+  /\ res = "Ok" /\ Same(s, s1, StreamFrame)
+  /\ s1.ustreams = [x \in DOMAIN s.ustreams \cup {SIG} |-> IF x = SIG THEN "sig" ELSE s.ustreams[x]]
 
 \* C01/C15: after a close that returned Ok the medium holds exactly what was
 \* observable just before; nothing else moves.
@@ -441,6 +474,9 @@ StepOK(s, e, s1) ==
     [] e.op = "SetSummary"  -> SetSummarySpec(s, a, r, s1)
     [] e.op = "WriteStream" -> WriteStreamSpec(s, a, r, s1)
     [] e.op = "RemoveStream" -> RemoveStreamSpec(s, a, r, s1)
+    [] e.op = "ReadStream"   -> ReadStreamSpec(s, a, r, s1)
+    [] e.op = "RemoveSignature" -> RemoveSignatureSpec(s, a, r, s1)
+    [] e.op = "AddSignature" -> AddSignatureSpec(s, a, r, s1)
     [] e.op = "Flush"       -> CloseSpec(s, "open", r, s1)
     [] e.op \in {"IntoInner", "DropPkg"} -> CloseSpec(s, "closed", r, s1)
     [] e.op \in {"Reopen", "Crash"} -> LoadSpec(s, r, s1)
